@@ -440,9 +440,75 @@ def placeholderise(sql, dialect):
     return out
 
 
+HISTORY_STATEMENTS = [
+    ('insert', 'insert into int.tab (a, b) values (?, ?)', [1, 2], [3, 4]),
+    ('delete', 'delete from int.tab where a = ? and b = ?', [1, 2], [3, 4]),
+    ('select', 'select a, b from int.tab where a = ? and b > ?', [1, 2], [3, 4]),
+    ('select-default', 'select a, b from tab where a = ? and b > ?', [1, 2], [3, 4]),
+    ('update', 'update int.tab set a = ? where b = ?', [1, 2], [3, 4]),
+]
+
+
+def _prepared_run(planner, query, calls):
+    """drives prepare_steps + a sequence of execute_steps calls with the repository's own FakeExecutor; returns one outcome per call:
+    list of step reprs, or ('raises', exception class name)"""
+    from tests.test_planner.test_prepared_statement import FakeExecutor
+    ex_ = FakeExecutor()
+    for st_ in planner.prepare_steps(query):
+        st_.set_result(ex_.execute(st_))
+    outs = []
+    for vals in calls:
+        try:
+            steps = []
+            for st_ in planner.execute_steps(list(vals)):
+                st_.set_result(ex_.execute(st_))
+                steps.append(repr(st_))
+            outs.append(steps)
+        except Exception as e:
+            outs.append(('raises', type(e).__name__))
+    return outs
+
+
+def history_problems():
+    """prepare/execute call sequences on one planner: (i) a second execute with other values either is refused or plans with the NEW values (what a fresh
+    prepare + execute of those values gives) - never with the old ones; (ii) an execute that is refused for a wrong number of values leaves the statement
+    as it was: the following correct execute plans exactly as if the refused call had not happened"""
+    from mindsdb_sql import parse_sql
+    from mindsdb_sql.planner.query_planner import QueryPlanner
+    kw = dict(integrations=['int', 'int2'], predictor_metadata=[], default_namespace='mindsdb')
+    out = []
+    for name, sql, v1, v2 in HISTORY_STATEMENTS:
+        try:
+            fresh1 = _prepared_run(QueryPlanner(**kw), parse_sql(sql), [v1])[0]
+            fresh2 = _prepared_run(QueryPlanner(**kw), parse_sql(sql), [v2])[0]
+            seq = _prepared_run(QueryPlanner(**kw), parse_sql(sql), [v1, v2])
+            rej = _prepared_run(QueryPlanner(**kw), parse_sql(sql), [v1[:1], v1])
+            rej2 = _prepared_run(QueryPlanner(**kw), parse_sql(sql), [v1 + [9], v1])
+        except ImportError:
+            return out
+        except Exception as e:
+            out.append((f'reexecute.{name}', sql, f'driver failed: {type(e).__name__}: {e}'))
+            continue
+        if isinstance(fresh1, tuple) or isinstance(fresh2, tuple):
+            continue
+        if seq[0] != fresh1:
+            out.append((f'first-execute.{name}', sql, f'first execute plans {seq[0]}, a fresh prepare+execute plans {fresh1}'))
+        if not isinstance(seq[1], tuple) and seq[1] != fresh2:
+            out.append((f'reexecute.{name}', sql, f'second execute with {v2} plans {str(seq[1])[:200]}; a fresh prepare+execute of these values plans {str(fresh2)[:200]}'))
+        for tag, r in (('too-few', rej), ('too-many', rej2)):
+            if not (isinstance(r[0], tuple) and r[0][1] == 'PlanningException'):
+                out.append((f'count.{tag}.{name}', sql, f'execute with a wrong number of values: {r[0]}'))
+            elif r[1] != fresh1:
+                out.append((f'atomic.{tag}.{name}', sql, f'after a refused execute the correct execute gives {str(r[1])[:200]}, expected {str(fresh1)[:200]}'))
+    return out
+
+
 def bounded(rep, tier):
     n = 0
     seen_cases = set()
+    for cid, sql, msg in history_problems():
+        rep.add_bounded(Bounded(f'C12.bounded.history.{cid}', False, sql, msg, 'the plan of a fresh prepare + execute with the same values', bound='prepare/execute sequences'))
+    n += 5 * len(HISTORY_STATEMENTS)
     for name, sql in TEMPLATES.items():
         n += 1
         r = prepared_vs_inline(sql)
